@@ -24,8 +24,11 @@ func zzrSimplePrimary(s *zzrStore, t *zzrTxn, state int, ctsName, ttlName, minNa
 	case 2:
 		e.state = zzrLocked
 		e.ttl = zzrStoredTTL(ttlName)
-		e.minCommitTS = zzU64(minName)
-		zzAssume(e.minCommitTS == 0 || e.minCommitTS > t.startTS)
+		if zzParam("tier", 0) == 1 {
+			// quick: no min-commit-ts (its push is exercised by `single`)
+			e.minCommitTS = zzU64(minName)
+			zzAssume(e.minCommitTS == 0 || e.minCommitTS > t.startTS)
+		}
 	}
 	return s.add(e)
 }
@@ -35,7 +38,7 @@ func zzrSimplePrimary(s *zzrStore, t *zzrTxn, state int, ctsName, ttlName, minNa
 // or large. No outcome leaks from one transaction to the other; each live transaction is
 // left alone and the shortest remaining ttl is what the caller is told to wait.
 func ZZ_C04_resolver_pair() {
-	s, lr := zzrNewStore(zzParam("faults", 0))
+	s, lr := zzrNewStore(zzParam("pairfaults", 0)) // region errors are exercised by the one-lock harnesses
 	defer s.close(lr)
 	startA := zzrStartTS("txnA.start")
 	tA := &zzrTxn{startTS: startA, primary: []byte("a")}
